@@ -41,8 +41,13 @@ CODES_Q = [
     (Cfg("rm", 1, 3), "rminv"),
     (Cfg("hamming", 3, False, "right"), "haminv"),
     (Cfg("cyclic", 7, 11, "left"), "syndrome"),
+    # information set 'right' / custom through the decoders that call the encoder's extract_message (appended: indices above are part of
+    # the configuration names)
+    (Cfg("hamming", 3, False, "right"), "syndrome"),
+    (Cfg("cyclic", 7, 11, "right"), "syndrome"),
+    (Cfg("hamming", 3, False, (6, 0, 3, 1)), "syndrome"),
 ]
-MODS_Q = [Cfg("bpsk"), Cfg("qpsk", "norm"), Cfg("psk", 8, "gray"), Cfg("qam", 16, "gray", "norm"), Cfg("pam", 4, "gray", "norm"), Cfg("psk", 4, "bin")]
+MODS_Q = [Cfg("bpsk"), Cfg("qpsk", "norm"), Cfg("psk", 8, "gray"), Cfg("qam", 16, "gray", "norm"), Cfg("pam", 4, "gray", "norm"), Cfg("psk", 4, "bin"), Cfg("bpsk_real")]
 
 
 class _InvDecoder(torch.nn.Module):
@@ -80,7 +85,9 @@ def _link_cfgs(tier):
         forks = {"syndrome": 2 ** (n - k), "haminv": n + 1, "brute": 1, "rminv": 1}[kind]
         if forks**nb > (600 if tier == "quick" else 6000) or nb * n > (16 if tier == "quick" else 32):
             continue
-        for chan in ("ideal", "displaced") + (("flips",) if mod[0] in ("bpsk", "qpsk") and (nb == 1 or tier == "thorough") else ()):
+        if tier == "quick" and CODES_Q.index((code, kind)) >= 8 and nb > 1:
+            continue  # the appended 'right' / custom information-set codes: single-block pairings in the quick tier
+        for chan in ("ideal", "displaced") + (("flips",) if mod[0] in ("bpsk", "bpsk_real", "qpsk") and (nb == 1 or tier == "thorough") else ()):
             out.append(Cfg(str(code), kind, str(mod), chan, CODES_Q.index((code, kind)), MODS_Q.index(mod)))
     return out
 
@@ -157,7 +164,7 @@ def link(ctx, cfg):
         for blk in range(nb):
             ctx.assume(S.le(SP.weight(ep[blk]), t))
         flat = ep.reshape(-1)
-        if mod[0] == "bpsk":
+        if mod[0] in ("bpsk", "bpsk_real"):
             sign = ctx.tensor(np.array([[S.sub(1, S.mul(2, v)) for v in flat]], dtype=object))
             channel = LambdaChannel(lambda x, *a, **kw: x * sign)
         else:
